@@ -268,3 +268,58 @@ Example witness_state :
   col_okb (mkCol [97;32;60;98;45] (Some [102;117;108;108]) true 2 10 (Some (-7))) = true.
 Proof. exact ex_witness. Qed.
 Print Assumptions witness_state.
+
+(* ---- round 4: field names are resolved exactly ----
+   A name written in a fmt string / given to remove_columns denotes the field with literally
+   that name (code point by code point) and nothing else: no letter-case folding, no Unicode
+   normalisation, no squeezing of blanks, no prefix or numeric matching.  With pairwise
+   different names - however similar - every name resolves to its own field. *)
+Theorem field_lookup_exact : forall fs n,
+  (forall f, get_field fs n = Some f -> In f fs /\ f_name f = n) /\
+  (get_field fs n = None <-> ~ In n (map f_name fs)) /\
+  (has_dup (map f_name fs) = false -> forall f, In f fs -> get_field fs (f_name f) = Some f).
+Proof.
+  intros fs n. split; [intros f; apply get_field_exact|]. split; [apply get_field_none|].
+  intros H f. apply get_field_own, H.
+Qed.
+Print Assumptions field_lookup_exact.
+
+(* the columns built by the fmt setter and by the constructor carry literally the names
+   written in the fmt string (the hidden ones dropped), all of them names of fields *)
+Theorem columns_named_as_written : forall fs l cs,
+  (setter_cols fs l = Ok cs ->
+   map c_name cs = map p_name (filter shown_by_setter l) /\ incl (map p_name l) (map f_name fs)) /\
+  (ctor_cols fs l = Ok cs ->
+   map c_name cs = map p_name (filter shown_by_ctor l) /\
+   incl (map p_name (filter shown_by_ctor l)) (map f_name fs)).
+Proof. intros fs l cs. split; [apply setter_cols_names|apply ctor_cols_names]. Qed.
+Print Assumptions columns_named_as_written.
+
+(* hence both routes of the round trip keep every column on its field *)
+Theorem roundtrip_keeps_fields : forall t, wf t = true ->
+  (exists t', set_fmt t (fmt_to_str t) = Ok t' /\ t_fields t' = t_fields t /\
+              map c_name (t_cols t') = map c_name (t_cols t)) /\
+  (t_cols t <> [] ->
+   exists t', ctor (t_fields t) (Some (fmt_to_str t)) None None = Ok t' /\ t_fields t' = t_fields t /\
+              map c_name (t_cols t') = map c_name (t_cols t)).
+Proof. exact roundtrip_names. Qed.
+Print Assumptions roundtrip_keeps_fields.
+
+(* non-vacuity: fields n / N / e-acute in NFC and in NFD / 'a b' / 'a  b' / 'ab' / 'a', every field
+   with values of its own length (a column bound to a neighbour would be handed another width):
+   fmt "N:3-12,a  b!,n:1-9,e+U0301,ab,a,U00E9,a b", printed, re-applied through both routes; near-miss
+   spellings ('A B', 'E'+U0301, 'abc', 'A', 'a<TAB>b', U00C9) are refused / ignored *)
+Example witness_near_names :
+  fields_okb nn_fields = true /\ wf nn_printed = true /\
+  map c_name (t_cols nn_printed) = nn_names /\
+  snd (print nn_rows nn_printed) = Ok (mkView [6; 10; 5; 8; 11; 13; 7; 9] [LRec 0; LBreak; LRec 1] 0) /\
+  set_fmt nn_printed (fmt_to_str nn_printed) = Ok (reformatted nn_printed) /\
+  map c_name (t_cols (reformatted nn_printed)) = nn_names /\
+  snd (print nn_rows (reformatted nn_printed)) = snd (print nn_rows nn_printed) /\
+  snd (print nn_rows (rebuilt nn_printed)) = snd (print nn_rows nn_printed) /\
+  set_fmt nn_printed [65;32;66] = Err ValueErr /\ set_fmt nn_printed [69;769] = Err ValueErr /\
+  set_fmt nn_printed [97;98;99] = Err ValueErr /\ ctor nn_fields (Some [65]) None None = Err AttrErr /\
+  remove_columns nn_printed [[65]; [97;9;98]; [201]] = nn_printed /\
+  map c_name (t_cols (remove_columns nn_printed [[110]; [97]])) = [[78]; [97;32;32;98]; [101;769]; [97;98]; [233]; [97;32;98]].
+Proof. exact nn_witness. Qed.
+Print Assumptions witness_near_names.
